@@ -127,6 +127,38 @@ func runC13(c *Ctx) {
 	if nScanFn == 0 {
 		r.Violation("C13.1", "return:scanFn", c.U.Pos(cb.Pos()), "the walk callback never reports to the scan function")
 	}
+	// Walk calls back a second time for the scanned directory itself when it cannot read
+	// it (EMFILE, EACCES, EIO), with the entry information AND the error: the directory is
+	// entered silently only without an error, the error goes to the scan function
+	rootSilent, rootReported := true, false
+	for _, ret := range ir.NormalReturns(cb) {
+		gs := c.guardsOf(cb, ret)
+		isDir, isRoot, errNil, errNonNil := false, false, false, false
+		for _, g := range gs {
+			switch {
+			case strings.HasPrefix(g, "IsDir(param:info)"):
+				isDir = true
+			case strings.HasPrefix(g, "param:path == "):
+				isRoot = true
+			case g == "nil(param:err)":
+				errNil = true
+			case g == "nonnil(param:err)":
+				errNonNil = true
+			}
+		}
+		if !isDir || !isRoot {
+			continue
+		}
+		rv := ir.ReturnResult(ret, 0)
+		if ir.IsNilConst(rv) && !errNil {
+			rootSilent = false
+		}
+		if call, ok := rv.(*ssa.Call); ok && errNonNil && scanFnCall(rv) && len(call.Call.Args) == 4 &&
+			call.Call.Args[0] == ssa.Value(cb.Params[0]) && ir.IsNilConst(call.Call.Args[2]) && call.Call.Args[3] == ssa.Value(cb.Params[2]) {
+			rootReported = true
+		}
+	}
+	r.Check("C13.1", "unreadable-directory-reported", rootSilent && rootReported, c.U.Pos(cb.Pos()), "a Spec directory that exists but cannot be read is reported to the scan function with its path and the error; it is passed over silently only when Walk reported no error for it")
 	// failures that are not ENOENT reach the scan function: on the info == nil
 	// branch the only silent return is guarded by errors.Is(err, fs.ErrNotExist)
 	for _, ret := range ir.NormalReturns(cb) {
